@@ -20,7 +20,7 @@ import json
 import re
 import threading
 
-from lib.vlib import jdump, sha
+from lib.vlib import Inconclusive, jdump, sha
 
 P_HTTP = "pkg/object/httpserver"
 P_TC = "pkg/object/trafficcontroller"
@@ -106,7 +106,10 @@ def _parallel(ctx, jobs):
         for f in futs:
             try:
                 f.result()
-            except Exception as e:   # Inconclusive included: first one wins, after all have finished
+            except Inconclusive as e:   # a phase that could not decide does not hide what the other phases found
+                with LOCK:
+                    ctx.defer_inconclusive(str(e))
+            except Exception as e:
                 err = err or e
         if err:
             raise err
